@@ -1,3 +1,5 @@
+import re
+
 from arpeggio import EOF, Optional, PTNodeVisitor, visit_parse_tree
 from arpeggio import RegExMatch as _
 from arpeggio import ZeroOrMore as ArpeggioZeroOrMore
@@ -159,7 +161,10 @@ class RRELNavigation(RRELBase):
     def __repr__(self):
         if self.fixed_name is not None:
             assert not self.consume_name
-            return "'" + self.fixed_name + "'~" + self.name
+            # The name is kept as written (escapes included): an unescaped
+            # single quote means it was given in double quotes.
+            quote = '"' if re.search(r"(?<!\\)'", self.fixed_name) else "'"
+            return quote + self.fixed_name + quote + "~" + self.name
         else:
             return self.name if self.consume_name else "~" + self.name
 
